@@ -18,6 +18,9 @@ macro_rules! dispatch {
             "C01" => $f::<props::c01::C01>($($arg),*),
             "C02" => $f::<props::c02::C02>($($arg),*),
             "C03" => $f::<props::c03::C03>($($arg),*),
+            "C10" => $f::<props::c10::C10>($($arg),*),
+            "C11" => $f::<props::c11::C11>($($arg),*),
+            "C12" => $f::<props::c12::C12>($($arg),*),
             "C13" => $f::<props::c13::C13>($($arg),*),
             "C15" => $f::<props::c15::C15>($($arg),*),
             "C16" => $f::<props::c16::C16>($($arg),*),
